@@ -70,6 +70,13 @@ CHECKS.update({
             "DESIGN.md §4 C14"),
 })
 
+CHECKS.update({
+    "C04": ("simquic+sched", "reference control/uni-stream automaton + effect-history runtime monitor: a raw peer plays unidirectional stream scripts (types, varint forms, control frame sequences, FIN/RESET points) against the real endpoint under stream-credit shortage, back-pressure and a stalled grease stream; close code, driver result and GOAWAY effects compared",
+            "All control frame sequences up to length 3 x endings x roles are played completely, plus sampled multi-stream scripts, GOAWAY effect traces and credit/back-pressure modes; the observed connection error must be one some processing order can raise first (or none), and GOAWAY effects must appear exactly when sent. Held-on-observed.",
+            "Trusts the automaton in props/c04.rs; overlapping rules accept any applicable code; push streams, CANCEL_PUSH to a client and QPACK stream closure are don't-care; a server whose accept() returned None legitimately stops processing.",
+            "DESIGN.md §4 C04"),
+})
+
 NOT_YET = {}
 
 def main():
